@@ -260,6 +260,26 @@ func concurrent(w wrapped, kind string, n, callers, per int) vs.Scenario {
 				if w.name != "Operation.Limit" && p.maxIn > 1 {
 					return "limit-executions-overlap", fmt.Sprintf("%s: %d executions in flight", w.name, p.maxIn)
 				}
+				if w.name != "Operation.Limit" {
+					// every call either performs one of the `want` executions (and returns that
+					// execution's result) or returns the LAST result, i.e. the result of execution
+					// `want`, and in both cases only after that execution has finished
+					seen := map[int]int{}
+					for _, r := range rets {
+						if r.val < 1 || r.val > want {
+							return "stale-or-foreign-result", fmt.Sprintf("%s Limit(%d), %d calls: a call returned %d (results are 1..%d)", w.name, n, calls, r.val, want)
+						}
+						if r.val-1 < len(p.ends) && r.at < p.ends[r.val-1] {
+							return "returned-before-execution-finished", fmt.Sprintf("%s Limit(%d): a caller returned result %d at %d, that execution ended at %d", w.name, n, r.val, r.at, p.ends[r.val-1])
+						}
+						seen[r.val]++
+					}
+					for k := 1; k < want; k++ {
+						if seen[k] != 1 {
+							return "non-final-result-returned-again", fmt.Sprintf("%s Limit(%d), %d calls: result of execution %d was returned by %d calls (returns %v)", w.name, n, calls, k, seen[k], rets)
+						}
+					}
+				}
 			case "lock":
 				if p.maxIn > 1 {
 					return "two-executions-at-once", fmt.Sprintf("%s: %d executions in flight", w.name, p.maxIn)
